@@ -216,6 +216,11 @@ func (s *FastModularNetworkSolver) recursiveActivateNode(currentNode int) (res b
 	// This is no longer being calculated (for cycle detection)
 	s.inActivation[currentNode] = false
 
+	// Add the bias links' contribution, as the forward step does
+	if s.biasNeuronCount > 0 {
+		s.neuronSignalsBeingProcessed[currentNode] += s.biasList[currentNode]
+	}
+
 	// Set this signal after running it through the activation function
 	if s.neuronSignals[currentNode], err = neatmath.NodeActivators.ActivateByType(
 		s.neuronSignalsBeingProcessed[currentNode], nil,
